@@ -126,6 +126,13 @@ func vh_C10_L3_cwnd_laws() {
 		chunks[0].missIndicator = 2
 		chunks[0].nSent = uint32(1 + vPick(2)) // sent once, or already retransmitted once (by RACK, say) and lost again: a loss signal all the same
 		sack := &chunkSelectiveAck{cumulativeTSNAck: base, advertisedReceiverWindowCredit: 1 << 20, gapAckBlocks: []gapAckBlock{{2, 2}}}
+		if vPick(2) == 1 {
+			// the three reports arrive as three copies of one SACK (the network duplicated it):
+			// the second and third acknowledge nothing new but still report the chunk missing
+			chunks[0].missIndicator = 0
+			vassert(vDeliver(a, sack) == nil && vDeliver(a, sack) == nil, "SACK ok")
+			vassert(!a.inFastRecovery, "two reports are not yet a loss signal")
+		}
 		vassert(vDeliver(a, sack) == nil, "SACK ok")
 		want := cwnd / 2
 		if want < 4*mtu {
@@ -269,5 +276,26 @@ func vh_C10_L7_tail_loss_recovery_ends() {
 	} else {
 		vassert(a.tlrActive && a.tlrEndTSN == end, "the episode lasts until then")
 	}
+	vcover("end")
+}
+
+// C10.L8: the initial congestion window, for every configured MTU: min(4 MTU, max(2 MTU,
+// 4380 bytes)) (RFC 4960 7.2.1), computed from the MTU that was configured - in particular
+// never below one MTU (a full-sized fragment always fits) and never above four.
+func vh_C10_L8_initial_window_for_every_mtu() {
+	m := nondetU32()
+	vassume(m >= 100 && m <= 65535)
+	cfg := &Config{NetConn: &vConn{}, LoggerFactory: vLoggerFactory{}, Name: "v", MTU: m}
+	a := createAssociationFromConfigWithTsn(cfg, 5)
+	vassert(a.MTU() == m, "the configured MTU is in force")
+	want := 2 * m
+	if want < 4380 {
+		want = 4380
+	}
+	if want > 4*m {
+		want = 4 * m
+	}
+	vassert(a.CWND() == want, "initial cwnd = min(4 MTU, max(2 MTU, 4380))")
+	vassert(a.CWND() >= m && a.CWND() <= 4*m, "never below one MTU, never above four")
 	vcover("end")
 }
